@@ -14,6 +14,7 @@ FragmentSafe(p) == LET o == Lex(Fragment(p)) IN
                    /\ Lex(o[1].v) = Lex(FragPre) \o <<Str(p)>> \o Lex(FragPost)
 AliasSafe(p) == p # <<>> => (LET t == Lex(AliasVerbatim(p)) IN Len(t) = 2 /\ t[2].k \in {"ident", "qident"} /\ t[2].v = p)
 AliasQuotedSafe(p) == p # <<>> => Lex(AliasQuoted(p)) = <<Tok("ident", <<"a", "s">>), Tok("qident", p)>>
+ASSUME PrintT(<<"payloads", Cardinality(Payloads(MaxLen))>>)
 ASSUME \A p \in Payloads(MaxLen) : LiteralSafe(p) /\ LikeSafe(p) /\ FragmentSafe(p) /\ AliasQuotedSafe(p)
 ASSUME CheckAlias => \A p \in Payloads(MaxLen) : AliasSafe(p)
 VARIABLE x
